@@ -123,3 +123,14 @@ def same_value(ctx, a, b):
         tol = 1e-7 * (1.0 + sa + sb)
         return True, (d <= tol) & (d >= -tol)
     return True, ctx.equal(a, b, tol=1e-7)
+
+
+def clear_difference(a, b):
+    """witness condition for a violated equality: a difference far above the comparison tolerance (robust under rounding)"""
+    if not (sx.is_sym(a) or sx.is_sym(b)):
+        return None
+    d = a - b
+    sa = sx.sabs(a) if sx.is_sym(a) else abs(a)
+    sb = sx.sabs(b) if sx.is_sym(b) else abs(b)
+    big = 1e-3 * (1.0 + sa + sb)
+    return (d > big) | (d < -big)
